@@ -1068,11 +1068,13 @@ def temperature_types(ctx, rng, direct_pot):
                      got=got.tolist(), want=want.tolist()),
                 key="int-temperature-overflow" if big else "temperature-type:" + label)
     # array temperatures and broadcast spectra agree with the scalar calls
-    for _ in range(ctx.n(4, 24)):
-        nT = rng.choice([1, 3])
+    forms = ["1-D spectrum", "(nT,k) spectrum", "scalar dof", "int dof"]
+    for it in range(ctx.n(8, 32)):
+        # stratified: every form with nT = 1 and nT = 3
+        nT = [1, 3][(it // 4) % 2]
+        form = forms[it % 4]
         Ts = [rng.uniform(1.0, 300.0) for _ in range(nT)]
         kb, kf = rng.randint(1, 4), rng.randint(1, 3)
-        form = rng.choice(["1-D spectrum", "(nT,k) spectrum", "scalar dof", "int dof"])
         xb = [rng.choice([0.0, rng.uniform(0, 40.0), -rng.uniform(0, 5.0)]) for _ in range(kb)]
         xf = [rng.choice([0.0, rng.uniform(0, 40.0)]) for _ in range(kf)]
         dofb = [float(rng.randint(1, 12)) for _ in range(kb)]
@@ -1094,8 +1096,17 @@ def temperature_types(ctx, rng, direct_pot):
                     (MB, nB, np.full(kb, 1.5), np.full(kb, 1.0)),
                     (MF, nF, np.full(kf, 1.5), np.full(kf, 1.0)), T), dtype=float).ravel()
         ref = np.array([float(make_plain_call(direct_pot, mb, dofb, mf, doff, T)) for T in Ts])
-        got = call(np.array(Ts), twod=(form == "(nT,k) spectrum"))
         ctx.count("array_temperature", bucket="%s nT=%d" % (form, nT))
+        try:
+            got = call(np.array(Ts), twod=(form == "(nT,k) spectrum"))
+            got1 = call(float(Ts[0]))          # the same form with a scalar temperature
+        except Exception as ex:                # a raise is judged, not skipped
+            ctx.fail_input("potentialOneLoopThermal with temperature array %r (%s) raises %r" % (
+                Ts, form, ex), dict(kind="array_T", Ts=Ts, form=form, xb=xb, xf=xf, dofb=dofb,
+                                    doff=doff, raises=repr(ex)), key="array-T:" + form)
+            continue
+        if got1.shape != (1,) or abs(got1[0] - ref[0]) > 1e-12 * abs(ref[0]) + 1e-300:
+            got = got1
         if got.shape != ref.shape or not np.all(np.abs(got - ref) <= 1e-12 * np.abs(ref) + 1e-300):
             ctx.fail_input("potentialOneLoopThermal with temperature array %r (%s): %r, the "
                            "scalar calls give %r" % (Ts, form, got.tolist(), ref.tolist()),
